@@ -651,6 +651,61 @@ fn descr_len(p: &[u8], o: &mut usize) -> Option<usize> {
     None
 }
 
+/// Bits an AudioSpecificConfig needs up to and including GASpecificConfig's three flag bits, for
+/// the object types an MP4 AAC track can carry; None when even the fixed fields do not fit.
+fn asc_bits_needed(asc: &[u8]) -> Option<usize> {
+    let total = asc.len() * 8;
+    let mut pos = 0usize;
+    let mut get = |n: usize| -> Option<u32> {
+        if pos + n > total {
+            return None;
+        }
+        let mut v = 0u32;
+        for i in 0..n {
+            let b = (asc[(pos + i) / 8] >> (7 - (pos + i) % 8)) & 1;
+            v = (v << 1) | b as u32;
+        }
+        pos += n;
+        Some(v)
+    };
+    let aot_of = |get: &mut dyn FnMut(usize) -> Option<u32>| -> Option<u32> {
+        let a = get(5)?;
+        if a == 31 {
+            Some(32 + get(6)?)
+        } else {
+            Some(a)
+        }
+    };
+    let mut aot = aot_of(&mut get)?;
+    if get(4)? == 15 {
+        get(24)?;
+    }
+    get(4)?; // channelConfiguration
+    let mut need_extra = 0usize;
+    if aot == 5 || aot == 29 {
+        // extensionSamplingFrequencyIndex [+ 24], then the underlying object type
+        match get(4) {
+            Some(15) => {
+                if get(24).is_none() {
+                    need_extra += 24;
+                }
+            }
+            Some(_) => {}
+            None => need_extra += 4,
+        }
+        match aot_of(&mut get) {
+            Some(a) => aot = a,
+            None => {
+                need_extra += 5;
+                aot = 2;
+            }
+        }
+    }
+    let ga = matches!(aot, 1 | 2 | 3 | 4 | 6 | 7 | 17 | 19 | 20 | 21 | 22 | 23);
+    let _ = &mut get;
+    Some(pos + need_extra + if ga { 3 } else { 0 })
+}
+
 pub fn esds(p: &[u8], dev: &mut Vec<String>) -> Option<Esds> {
     if p.len() < 4 {
         dev.push("esds: too short".into());
@@ -719,6 +774,15 @@ pub fn esds(p: &[u8], dev: &mut Vec<String>) -> Option<Esds> {
             e.aot = e.asc[0] >> 3;
             e.sfi = ((e.asc[0] & 7) << 1) | (e.asc[1] >> 7);
             e.channel_cfg = (e.asc[1] >> 3) & 0x0f;
+            // ISO/IEC 14496-3 1.6.2.1: is the record long enough for the syntax its own
+            // audioObjectType selects? (explicit SBR/PS signalling needs the extension fields)
+            if let Some(need) = asc_bits_needed(&e.asc) {
+                if need > e.asc.len() * 8 {
+                    dev.push("esds: AudioSpecificConfig shorter than the syntax of its audioObjectType requires".into());
+                }
+            } else {
+                dev.push("esds: AudioSpecificConfig ends inside its fixed fields".into());
+            }
         } else {
             dev.push("esds: AudioSpecificConfig shorter than 2 bytes".into());
         }
